@@ -13,14 +13,27 @@ evaluation meets it with margin, one that cancels raw moments cannot; (b) index 
 that name positions by *negative indices*, in particular one position named p in one pair and
 p - n in another (`render`, `negative_pair_selections`).
 
+Two further families (added for the documented `tol` keyword and for entries of any binary64 magnitude):
+(c) *tol family* - mean / moment / standard_moment / impose_moment with an explicit tol in {0, 2**-6, 0.25, 0.5, 2}
+on every (sample, weight) case of length 2 and 3 (length 4 unweighted / per orbit): the weighted mean of the case
+is 0, non-zero but within tol, or beyond tol (labelled), and tol may only snap a RESULT of magnitude <= tol to 0.0 -
+the centre of a central moment stays the true weighted mean (`c_tol_defs`, `c_tol_moment`);
+(d) *scale families* - Lnorm (vectors, matrices with axis), the point-to-point metrics in all five call forms,
+and normalize / impose_sum on entries that mix O(1) values with tiny non-zero ones (2**-600 .. 2**-260: |v|**p
+underflows to a subnormal or to 0 for p = 2, 3, 4) and huge ones (2**300 .. 2**600: |v|**p overflows), plus
+integer-typed coordinates whose p-th powers leave the int64 range.  Oracle: ref/c18_exact.py (exact rational radicand,
+exact rational powers of the returned float; the max-norm fallback is accepted only for a vector whose OWN radicand
+is not a finite binary64 number - rules R1-R3 there).
+
 A *clause* is one library entry point with one parameter tuple; a clause returns
 an outcome label (histogrammed, exposes vacuity), the list of problems found and
 the number of library calls made.  `replay` re-runs exactly one clause.
 """
-import itertools, math
+import itertools, math, os
 from fractions import Fraction as F
 from mc.runner import Tally
 from ref import stats as R
+from ref import c18_exact as X
 
 ALPHA = [-2.0, 0.0, 0.5, 1.0, 3.0]
 WALPHA = [0.0, 0.25, 0.5, 1.0]
@@ -116,6 +129,17 @@ def _plain(a):
     if isinstance(a, tuple):
         return tuple(_plain(b) for b in a)
     return a
+
+
+class LazyCall(object):
+    """a message computed by a function only when it is printed (violation texts of a signature already recorded are never built)"""
+    __slots__ = ('fn',)
+
+    def __init__(self, fn):
+        self.fn = fn
+
+    def __str__(self):
+        return self.fn()
 
 
 class P(object):
@@ -339,6 +363,156 @@ def c_moment(xs, ws, order, m):
            extra=p.tol(order, R.spread(y)))
     p.want('keeps_mean', float(R.wmean(y, ws)), R.wmean(xs, ws), 'weighted mean after ', tag, extra=a)
     return ('ok:changed' if changed(y, xs) else 'ok:identity'), p
+
+
+# ------------------------------------------------------------------ the documented `tol` keyword of mean / moment / standard_moment / impose_moment
+# "tol: a tolerance, where any ``mean <= tol`` is zero".  Reading (DESIGN section 5 style, stated in ctx.assumptions):
+# tol snaps a RESULT of magnitude <= tol to exactly 0.0; it never changes the definition of the statistic - the centre
+# of a central moment is the true weighted mean whatever tol is.  Where the text leaves room (order 0 with tol >= 1;
+# whether standard_moment snaps the moment or the ratio; a moment exactly AT tol computed through inexact float
+# arithmetic; what impose_moment returns when the source moment is within tol, i.e. "is zero") nothing is judged
+# beyond "one of the readings", and the case is labelled in the histogram.
+TOLS_M = [0.0, 2.0 ** -6, 0.25, 0.5, 2.0]
+TOL_TARGETS = [2.5, -1.0]
+_MOM = {}
+
+
+def _wm(xs, ws, order):
+    """exact weighted mean (order 1) / central moment, cached per case"""
+    key = (tuple(xs), None if ws is None else tuple(ws), order)
+    r = _MOM.get(key)
+    if r is None:
+        if len(_MOM) > 4096:
+            _MOM.clear()
+        r = _MOM[key] = R.wmean(xs, ws) if order == 1 else R.wmoment(xs, ws, order)
+    return r
+
+
+def mean_class(mu, tol):
+    if mu == 0:
+        return 'mean=0'
+    return 'mean_within_tol' if abs(mu) <= F(tol) else 'mean_beyond_tol'
+
+
+def _snap(p, sub, got, exact, tol, what, extra=0.0, exact_boundary=False):
+    """got must be exactly 0.0 when |exact| < tol, ~exact when |exact| > tol; AT tol: 0.0 (exact_boundary: the float
+    evaluation is exact there, e.g. a mean of dyadics) or either (inexact evaluation).  Returns a label."""
+    T_ = F(tol)
+    if T_ > 0 and (abs(exact) < T_ or (exact_boundary and abs(exact) == T_)):
+        if float(got) != 0.0 or got != got:
+            p.add(sub, '%s = %r, but the exact value %s (= %.17g) has magnitude <= tol = %r and must be returned as 0.0'
+                  % (what, got, exact, float(exact), tol))
+        return 'snapped'
+    if T_ > 0 and abs(exact) == T_:
+        if float(got) != 0.0 and not near(got, exact, extra):
+            p.add(sub, '%s = %r, exact value %s is exactly at tol: 0.0 or the value itself' % (what, got, exact))
+        return 'at_tol'
+    p.want(sub, got, exact, what, extra=extra)
+    return 'kept'
+
+
+def c_tol_defs(xs, ws, tol):
+    """mean(x,w,tol); moment(x,w,k,tol) k=0..4; standard_moment(x,w,k,tol) k=1..4"""
+    import mystic.math.measures as mm
+    p = P(noise(xs))
+    a, D = p.a, float(R.spread(xs))
+    T_ = F(tol)
+    mu = _wm(xs, ws, 1)
+    labels = [mean_class(mu, tol)]
+    p.calls = 6
+    tag = '(%r,%r,tol=%r)' % (xs, ws, tol)
+    _snap(p, 'mean', mm.mean(xs, ws, tol), mu, tol, 'mean' + tag, extra=a, exact_boundary=True)
+    got = mm.moment(xs, ws, 0, tol)
+    if tol >= 1:
+        labels.append('amb_order0')
+        if float(got) not in (0.0, 1.0):
+            p.add('moment_order0', 'moment(order=0)%s = %r, neither 1.0 nor 0.0' % (tag, got))
+    elif float(got) != 1.0:
+        p.add('moment_order0', 'moment(order=0)%s = %r, the zeroth moment is 1' % (tag, got))
+    got = mm.moment(xs, ws, 1, tol)
+    if float(got) != 0.0:
+        p.add('moment_order1', 'moment(order=1)%s = %r, the first central moment is 0' % (tag, got))
+    snapped = 0
+    exact = {}
+    for k in (2, 3, 4):
+        m = exact[k] = _wm(xs, ws, k)
+        lab = _snap(p, 'moment', mm.moment(xs, ws, k, tol), m, tol, 'moment(order=%d)%s' % (k, tag), extra=p.tol(k, D))
+        snapped += lab == 'snapped'
+        if lab == 'at_tol':
+            labels.append('moment_at_tol')
+    labels.append('snapped=%d' % snapped)
+    var = exact[2]
+    if var > 0:
+        p.calls += 4
+        sd = float(var) ** 0.5
+        amb = False
+        for k in (1, 2, 3, 4):
+            got = mm.standard_moment(xs, ws, k, tol)
+            m = F(0) if k == 1 else exact[k]
+            r = float(m) / sd ** k
+            ex = 16 * a / sd * abs(r) if k % 2 == 0 else (3 + 3 * abs(r)) * 2 * a / sd
+            # reading A: the moment is snapped, then divided; reading B: the ratio is snapped
+            zero_a = T_ > 0 and abs(m) <= T_
+            keep_a = not (T_ > 0 and abs(m) < T_)
+            zero_b = tol > 0 and abs(r) <= tol * (1 + REL)
+            keep_b = not (tol > 0 and abs(r) < tol * (1 - REL))
+            if (zero_a, keep_a) != (zero_b, keep_b):
+                amb = True
+            if k == 2 and (zero_a or zero_b):
+                keep_a = amb = True         # the standardised second moment is 1 by definition: whether tol applies to it is open
+            ok = ((zero_a or zero_b) and float(got) == 0.0) or ((keep_a or keep_b) and near(got, r, ex))
+            if not ok:
+                p.add('standard_moment', 'standard_moment(order=%d)%s = %r; moment/std**order = %.17g (moment %s, variance %s), '
+                      'accepted: %s' % (k, tag, got, r, m, var,
+                                        ' or '.join((['0.0'] if zero_a or zero_b else []) + (['%.17g' % r] if keep_a or keep_b else []))))
+        if amb:
+            labels.append('amb_std')
+    else:
+        labels.append('zero_variance')
+    return ':'.join(labels), p
+
+
+def c_tol_moment(xs, ws, order, m, tol, skew):
+    """impose_moment(m, x, w, order, tol, skew): reaches the target and keeps the mean wherever the source moment is
+    beyond tol (a source moment within tol "is zero": the operation is degenerate there - recorded, not judged)"""
+    import mystic.math.measures as mm
+    p = P()
+    if order % 2 == 0 and m < 0:
+        return 'undefined:negative_even_moment', p
+    sk = bool(order % 2) if skew is None else bool(skew)
+    src = [x * x for x in xs] if sk else xs
+    sv = _wm(src, ws, order)
+    cls = mean_class(_wm(xs, ws, 1), tol)
+    if sv == 0:
+        return 'undefined:zero_source_moment', p
+    if abs(sv) < F(tol):
+        return 'undefined:source_moment_within_tol:' + cls, p
+    if tol > 0 and abs(sv) == F(tol):
+        return 'undefined:source_moment_at_tol', p
+    p.calls = 1
+    y = mm.impose_moment(m, xs, ws, order, tol, skew)
+    tag = Lazy('impose_moment(%r,%r,%r,order=%d,tol=%r,skew=%r) -> %r', m, xs, ws, order, tol, skew, y)
+    if len(y) != len(xs) or isbad(y):
+        p.add('shape', tag + ': wrong length or non-finite entries for a defined operation (source moment %s = %.6g is beyond tol)' % (sv, float(sv)))
+        return 'bad:' + cls, p
+    a = p.a = noise(xs, y, m, mag(src) * abs(m / float(sv)) ** (1.0 / order))
+    p.want('target', float(R.wmoment(y, ws, order)), m, 'moment of order %d after ' % order, tag,
+           extra=p.tol(order, R.spread(y)))
+    p.want('keeps_mean', float(R.wmean(y, ws)), _wm(xs, ws, 1), 'weighted mean after ', tag, extra=a)
+    return ('ok:changed:' if changed(y, xs) else 'ok:identity:') + cls, p
+
+
+def tol_clause_list(thorough=False):
+    out = []
+    for tol in TOLS_M:
+        out.append(('tol_defs', {'tol': tol}))
+        if tol == 0.0 and not thorough:
+            continue                      # impose_moment with tol=0 is the default-argument clause `moment` of the main grid
+        for order in (2, 3, 4):
+            for m in (TOL_TARGETS if order % 2 else [t for t in TOL_TARGETS if t >= 0]):     # an even moment cannot be negative
+                for skew in (None, not order % 2):
+                    out.append(('tol_moment', {'order': order, 'm': m, 'tol': tol, 'skew': skew}))
+    return out
 
 
 # ------------------------------------------------------------------ median family (mystic's own statistic, DESIGN section 5)
@@ -708,9 +882,9 @@ def c_collapse(xs, ws, pairs):
 CLAUSES = {'defs': c_defs, 'expect': c_expect, 'mean': c_mean, 'variance': c_variance, 'std': c_std,
            'spread': c_spread, 'moment': c_moment, 'median': c_median, 'mad': c_mad, 'tmean': c_tmean,
            'tvariance': c_tvariance, 'tstd': c_tstd, 'weight_norm': c_weight_norm, 'support': c_support,
-           'unweighted': c_unweighted, 'collapse': c_collapse}
+           'unweighted': c_unweighted, 'collapse': c_collapse, 'tol_defs': c_tol_defs, 'tol_moment': c_tol_moment}
 NEEDS_WEIGHTS = {'weight_norm', 'support', 'unweighted', 'collapse'}
-TRANSFORMS = set(CLAUSES) - {'defs', 'expect'}
+TRANSFORMS = set(CLAUSES) - {'defs', 'expect', 'tol_defs'}
 
 
 # ------------------------------------------------------------------ selections
@@ -884,6 +1058,12 @@ def violate(T, name, params, xs, ws, sub, text, extra=None):
         sig['clip'] = params['clip']
     if mag(xs) >= 1024 or mag(params.get('m')) >= 1024:
         sig['scale'] = 'large_offset'
+    if name in ('tol_defs', 'tol_moment'):
+        sig['tol_positive'] = params['tol'] > 0
+        sig['mean_vs_tol'] = mean_class(_wm(xs, ws, 1), params['tol'])
+        if name == 'tol_moment':
+            sig['order_odd'] = bool(params['order'] % 2)
+            sig['skew'] = params['skew']
     if extra:
         sig.update(extra)
     T.violate(sig, {'clause': name, 'xs': xs, 'ws': ws, 'params': params}, text)
@@ -1167,6 +1347,361 @@ def shard_metrics(item):
     return T
 
 
+# ------------------------------------------------------------------ 'scale' families: entries across the whole binary64 range
+# Vectors / coordinate differences that mix ordinary entries with tiny-but-non-zero ones (|v|**p underflows to a
+# subnormal or to 0) and with huge ones (|v|**p overflows), judged by ref/c18_exact.py: exact rational radicand,
+# exact rational powers of the returned float, rules R1-R3 there.  The max-norm fallback is accepted only for a
+# vector (row, pair of points) whose own radicand is not a finite binary64 number.
+T6, T52, T35, T26 = 2.0 ** -600, 3 * 2.0 ** -520, 2.0 ** -350, 2.0 ** -260   # p>=2 -> 0 | p=2 subnormal | p=3 subnormal, p=4 -> 0 | p=4 subnormal
+H6, H51, H4, H3 = 2.0 ** 600, 3 * 2.0 ** 510, 2.0 ** 400, 2.0 ** 300         # p>=2 over | p=2: each term finite, two of them over | p>=3 over | p=4 over
+NORM_ALPHA = [0.0, 1.0, -2.0, 3.0, T6, -T52, T35, T26, H6, H51, -H4, H3]
+MAT_ALPHA = [0.0, 3.0, -4.0, T6, T35, T26, H6, H3]
+MAT_ALPHA_WIDE = [3.0, -4.0, T6, H6]                # 2x3 and 3x2 (zeros: the 2x2 arrays)
+PS_SCALE = [0, 1, 2, 3, 4, INF]
+MX = [0.0, 3.0, T6, T35, H6]                        # coordinates of x
+MX2 = [0.0, 3.0, T6, H6]                            # coordinates of a two-row x (quick tier; thorough: MX)
+MXP = [0.0, -4.0]                                   # coordinates of a two-row x' and of 3-d points
+MXP1 = [0.0, -4.0, -T52, T26, -H4]                  # coordinates of a one-row x'
+MINK_PS = [3, 4]
+WN = [0.0, 1.0, 2.0, T6, T52, T35, T26, H6, H3]     # weights for normalize
+INTS = [0, 3, -4, 3000000, 4000000, 2 ** 31]        # integer-typed coordinates: d**p leaves the int64 range
+
+
+def _pj(p):
+    return 'inf' if p == INF else p
+
+
+def _pv(p):
+    return INF if p == 'inf' else p
+
+
+def row_class(vec, p):
+    """'overflow' (radicand not a finite binary64 number), 'underflowing_term' (some |v|**p below 2**-1022), 'plain'"""
+    return X.info([X.idx_diff(v) for v in vec], p).cls
+
+
+def _others(classes, j):
+    o = set(classes[:j] + classes[j + 1:])
+    return 'overflow' if 'overflow' in o else 'underflowing_term' if 'underflowing_term' in o else 'plain' if o else None
+
+
+def _dtype(arr):
+    flat = arr
+    while isinstance(flat, list) and flat and isinstance(flat[0], list):
+        flat = flat[0]
+    return 'int' if all(isinstance(v, int) for v in flat) else 'float'
+
+
+def c_lnorm_scale(arr, p, axis):
+    """-> [(verdict, this_row class, other rows' class, text)] one entry per reduced vector"""
+    import numpy as np
+    from mystic.math.distance import Lnorm
+    pp = _pv(p)
+    before = np.geterr()
+    got = Lnorm(arr, pp, axis)
+    out = []
+    if np.geterr() != before:
+        out.append(('BAD:error_state_not_restored', 'plain', None, 'Lnorm(%r,p=%r,axis=%r) left numpy.geterr() = %r (was %r)' % (arr, p, axis, np.geterr(), before)))
+        np.seterr(**before)
+    if axis is None:
+        vecs = [[v for row in arr for v in row] if isinstance(arr[0], list) else list(arr)]
+        if np.ndim(got) != 0:
+            return out + [('BAD:shape', 'plain', None, 'Lnorm(%r,p=%r) returned shape %r, a scalar is documented' % (arr, p, np.shape(got)))]
+        gs = [got]
+    else:
+        nr, nc = len(arr), len(arr[0])
+        shape = (1, nc) if axis == 0 else (nr, 1)
+        if tuple(np.shape(got)) != shape:
+            return out + [('BAD:shape', 'plain', None, 'Lnorm(%r,p=%r,axis=%r) returned shape %r, expected %r' % (arr, p, axis, np.shape(got), shape))]
+        vecs = [[arr[i][j] for i in range(nr)] for j in range(nc)] if axis == 0 else [list(r) for r in arr]
+        gs = list(np.asarray(got).ravel())
+    res = [X.judge_idx(g, [X.idx_diff(v) for v in vec], pp) for vec, g in zip(vecs, gs)]
+    classes = [r.cls for v, r in res]
+    for j, (verdict, r) in enumerate(res):
+        text = ''
+        if verdict.startswith('BAD'):
+            text = LazyCall(lambda j=j, r=r: 'Lnorm(%r,p=%r%s)%s = %r, textbook %s' % (
+                arr, p, '' if axis is None else ',axis=%r' % axis, '' if axis is None else '[%d]' % j, float(gs[j]), X.reference_text(r, pp)))
+        out.append((verdict, classes[j], _others(classes, j) if len(res) > 1 else None, text))
+    return out
+
+
+def _metric_p(name, p):
+    return {'chebyshev': INF, 'hamming': 0, 'manhattan': 1, 'euclidean': 2}.get(name, p)
+
+
+def c_metric_scale(name, mode, x, xp, p=None):
+    """as c_metric, every entry judged by the exact oracle; p only for minkowski (None: its default 3)
+    -> [(verdict, this pair's class, the other pairs' class, text)]"""
+    import numpy as np
+    import mystic.math.distance as md
+    fn = getattr(md, name)
+    kw = {'p': p} if (name == 'minkowski' and p is not None) else {}
+    pp = _metric_p(name, 3 if p is None else p)
+    call = LazyCall(lambda: '%s(%r,%r%s) [mode %s]' % (name, x, xp, ',p=%r' % p if kw else '', mode))
+    before = np.geterr()
+    if mode in ('A', 'E'):
+        got = np.asarray(fn(x, xp, pair=False, axis=0, **kw))
+        xq = x if xp is None else xp
+        want_shape = (len(x), len(xq))
+        pairs = [(a, b) for a in x for b in xq]
+    elif mode == 'B':
+        got = np.asarray(fn(x, xp, pair=True, axis=1, **kw))
+        want_shape = (len(x),)
+        pairs = list(zip(x, xp))
+    elif mode == 'C':
+        got = np.asarray(fn(x, xp, pair=True, **kw))
+        want_shape = ()
+        pairs = [(x, xp)]
+    elif mode == 'D':
+        got = np.asarray(fn(x, xp, dmin=2, axis=0, **kw))
+        want_shape = (1, 1)
+        pairs = [(x, xp)]
+    else:
+        raise ValueError(mode)
+    out = []
+    if np.geterr() != before:
+        out.append(('BAD:error_state_not_restored', 'plain', None, '%s left numpy.geterr() = %r (was %r)' % (call, np.geterr(), before)))
+        np.seterr(**before)
+    if got.shape != want_shape:
+        return out + [('BAD:shape', 'plain', None, '%s returned shape %r, documented %r' % (call, got.shape, want_shape))]
+    gs = list(got.ravel())
+    res = [X.judge_idx(g, [X.idx_diff(u, v) for u, v in zip(a, b)], pp) for (a, b), g in zip(pairs, gs)]
+    classes = [r.cls for v, r in res]
+    for j, (verdict, r) in enumerate(res):
+        text = ''
+        if verdict.startswith('BAD'):
+            text = LazyCall(lambda j=j, r=r: '%s entry %d = %r, textbook d(%r,%r): %s' % (
+                call, j, float(gs[j]), pairs[j][0], pairs[j][1], X.reference_text(r, pp)))
+        out.append((verdict, classes[j], _others(classes, j) if len(res) > 1 else None, text))
+    return out
+
+
+def c_normalize_scale(ws, how, mass):
+    """normalize(w,'lP') has unit P-norm; normalize(w, mass) / impose_sum(mass, w) have total mass; both are multiples of w.
+    -> (outcome, [(sub, text)])"""
+    import mystic.math.measures as mm
+    probs = []
+    rel = X.REL
+    if how == 'lp':
+        pw = mass
+        if X.in_underflow_range(ws, pw):
+            return 'undefined:norm_in_underflow_range', probs
+        y = mm.normalize(ws, 'l%d' % pw)
+        call = 'normalize(%r, mass=%r)' % (ws, 'l%d' % pw)
+    elif how == 'impose_sum':
+        y = mm.impose_sum(mass, ws)
+        call = 'impose_sum(%r, %r)' % (mass, ws)
+    else:
+        y = mm.normalize(ws, mass)
+        call = 'normalize(%r, mass=%r)' % (ws, mass)
+    y = [float(v) for v in y]
+    tag = '%s -> %r' % (call, y)
+    if len(y) != len(ws) or isbad(y):
+        return 'bad', [('shape', tag + ': wrong length or non-finite entries')]
+    fy = [X.fr(v) for v in y]
+    fw = [X.fr(v) for v in ws]
+    outcome = 'ok'
+    if how == 'lp':
+        Sy = sum((abs(v) ** pw for v in fy), F(0))
+        if (1 - rel) ** pw <= Sy <= (1 + rel) ** pw:
+            outcome = 'ok:unit_pnorm'
+        elif X.overflows(ws, pw) and abs(max(abs(v) for v in fy) - 1) <= rel:
+            outcome = 'ok:unit_maxnorm_on_overflow'
+        else:
+            probs.append(('target', '%s: sum |w|^%d of the result is %s, must be 1 (the radicand of the input, %s, is a finite normal binary64 number%s)'
+                          % (tag, pw, X.describe(Sy), X.describe(X.radicand(X.absvec(ws), pw)[0]),
+                             '' if not X.overflows(ws, pw) else '; overflow: unit max-norm also accepted')))
+    else:
+        tot = sum(fy, F(0))
+        if abs(tot - F(mass)) > rel * abs(F(mass)):
+            probs.append(('target', '%s: the result sums to %s, requested %r' % (tag, X.describe(tot), mass)))
+    j = max(range(len(fw)), key=lambda i: abs(fw[i]))
+    c = fy[j] / fw[j]
+    for i in range(len(fw)):
+        if abs(fy[i] - c * fw[i]) > rel * abs(c * fw[i]) + X.SUBN:
+            probs.append(('proportional', '%s is not a multiple of the input weights (entry %d is %r, %s x w[%d] = %s)'
+                          % (tag, i, y[i], X.describe(c), i, X.describe(c * fw[i]))))
+            break
+    return outcome, probs
+
+
+def _multisets(alpha, n, seed):
+    """one ordering per multiset of size n (which ordering rotates with the seed)"""
+    import zlib
+    perms = list(itertools.permutations(range(n)))
+    out = []
+    for c in itertools.combinations_with_replacement(alpha, n):
+        pm = perms[(zlib.crc32(repr(c).encode()) + seed) % len(perms)]
+        out.append([c[i] for i in pm])
+    return out
+
+
+def _scale_tally(T, clause, results, sig_extra, case):
+    for verdict, this_row, other, text in results:
+        T.hist(clause + ':verdict', verdict)
+        if verdict.startswith('BAD'):
+            sig = {'clause': clause, 'family': 'scale', 'why': verdict[4:], 'this_row': this_row, 'other_rows': other}
+            sig.update(sig_extra)
+            T.violate(sig, case, text)
+
+
+def shard_snorms(item):
+    kind, chunk, ps, axes = item
+    T = Tally()
+    for arr in chunk:
+        for p in ps:
+            pj = _pj(p)
+            for axis in axes:
+                case = {'clause': 'Lnorm_scale', 'arr': arr, 'p': pj, 'axis': axis}
+                try:
+                    res = c_lnorm_scale(arr, pj, axis)
+                except Exception as e:
+                    res = [('BAD:raised', 'plain', None, 'Lnorm(%r,p=%r,axis=%r) raised %s: %s' % (arr, pj, axis, type(e).__name__, e))]
+                T.count('traces'); T.count('transitions')
+                T.hist('Lnorm_scale', 'p=%s axis=%s %s' % (pj, axis, _dtype(arr)))
+                for r in res:
+                    T.hist('Lnorm_scale:rows', '%s|other=%s' % (r[1], r[2]))
+                T.nontriv(('slnorm', arr, pj, axis))
+                _scale_tally(T, 'Lnorm', res, {'p': pj, 'axis': axis, 'dtype': _dtype(arr)}, case)
+    if chunk:
+        T.sample({'family': 'scale', 'Lnorm': chunk[len(chunk) // 2], 'p': [_pj(p) for p in ps]})
+    T.state(('snorms', kind, repr(chunk[:1])))
+    return T
+
+
+def _metric_calls(thorough=False):
+    calls = [('chebyshev', None), ('hamming', None), ('manhattan', None), ('euclidean', None)]
+    return calls + [('minkowski', None)] + [('minkowski', p) for p in (MINK_PS + [1, 2, 'inf'] if thorough else MINK_PS) if p != 3]
+
+
+def shard_smetrics(item):
+    """(form, chunk of x, list of x', thorough) with form in 'rows' (2-D x: modes A, B, E) / 'points' (1-D x: modes C, D)"""
+    form, xchunk, xps, thorough = item
+    T = Tally()
+    calls = _metric_calls(thorough)
+
+    def judge(name, p, mode, x, xp):
+        case = {'clause': 'metric_scale', 'metric': name, 'p': p, 'mode': mode, 'x': x, 'xp': xp}
+        try:
+            res = c_metric_scale(name, mode, x, xp, _pv(p) if p is not None else None)
+        except Exception as e:
+            res = [('BAD:raised', 'plain', None, '%s(p=%r) mode %s on %r, %r raised %s: %s' % (name, p, mode, x, xp, type(e).__name__, e))]
+        T.count('traces'); T.count('transitions')
+        T.hist('metric_scale', '%s%s mode %s' % (name, '' if p is None else '(p=%s)' % p, mode))
+        for r in res:
+            T.hist('metric_scale:pairs', '%s|other=%s' % (r[1], r[2]))
+        _scale_tally(T, 'metric', res, {'metric': name, 'p': p, 'mode': mode, 'dtype': _dtype(x)}, case)
+
+    for x in xchunk:
+        T.nontriv(('smetric', x))
+        for name, p in calls:
+            if form == 'rows':
+                judge(name, p, 'E', x, None)
+                for xp in xps:
+                    judge(name, p, 'A', x, xp)
+                    if len(xp) == len(x):
+                        judge(name, p, 'B', x, xp)
+            else:
+                for xp in xps:
+                    judge(name, p, 'C', x, xp)
+                    judge(name, p, 'D', x, xp)
+    if xchunk:
+        T.sample({'family': 'scale', 'metric_x': xchunk[len(xchunk) // 2], 'xp': xps[len(xps) // 2], 'form': form})
+    T.state(('smetrics', form, repr(xchunk[:1])))
+    return T
+
+
+NORMALIZE_HOWS = [('lp', 1), ('lp', 2), ('lp', 3), ('lp', 4), ('normalize', 1.0), ('normalize', 2.5), ('normalize', -1.0), ('impose_sum', 2.5)]
+
+
+def shard_snormalize(chunk):
+    T = Tally()
+    for ws in chunk:
+        for how, mass in NORMALIZE_HOWS:
+            try:
+                outcome, probs = c_normalize_scale(ws, how, mass)
+            except Exception as e:
+                outcome, probs = 'raised:' + type(e).__name__, [('raised', 'normalize(%r) how=%s mass=%r raised %s: %s' % (ws, how, mass, type(e).__name__, e))]
+            T.count('traces'); T.count('transitions')
+            T.hist('normalize_scale:%s' % (how if how != 'lp' else 'l%d' % mass), outcome)
+            if outcome.startswith('ok'):
+                T.nontriv(('snormalize', ws, how, mass))
+            for sub, text in probs:
+                T.violate({'clause': 'normalize', 'family': 'scale', 'how': how if how != 'lp' else 'l%d' % mass, 'sub': sub,
+                           'input': row_class(ws, mass if how == 'lp' else 1)},
+                          {'clause': 'normalize_scale', 'ws': ws, 'how': how, 'mass': mass}, text)
+    if chunk:
+        T.sample({'family': 'scale', 'normalize': chunk[len(chunk) // 2]})
+    T.state(('snormalize', repr(chunk[:1])))
+    return T
+
+
+def scale_items(thorough, seed):
+    items = []
+    ps = PS_SCALE + ([6] if thorough else [])
+    vecs = [list(v) for k in (1, 2, 3) for v in itertools.product(NORM_ALPHA, repeat=k)]
+    vecs += [list(v) for v in itertools.product(NORM_ALPHA, repeat=4)] if thorough else _multisets(NORM_ALPHA, 4, seed)
+    for ch in _chunks(vecs, 400):
+        items.append(('snorms', ('vec', ch, ps, (None,))))
+    # matrices: 2x2 over the wider alphabet with axis None/0/1; 2x3 (axis None and 1: two rows of three) and 3x2 (axis 0: two
+    # columns of three) over the narrower one - the reduced vectors of length 3 are the ones where max-norm and p-norm differ
+    # although one entry is negligible; the thorough tier runs every axis on every shape
+    mps = ps if thorough else [2, 3, 4]
+    for ch in _chunks(_arrays(MAT_ALPHA, 2, 2), 800):
+        items.append(('snorms', ('mat', ch, ps if thorough else [1, 2, 3, 4], (None, 0, 1))))
+    for ch in _chunks(_arrays(MAT_ALPHA_WIDE, 2, 3), 800):
+        items.append(('snorms', ('mat', ch, mps, (None, 0, 1) if thorough else (None, 1))))
+    for ch in _chunks(_arrays(MAT_ALPHA_WIDE, 3, 2), 800):
+        items.append(('snorms', ('mat', ch, mps, (None, 0, 1) if thorough else (0,))))
+    # integer-typed input (Lnorm documents floats and converts; the metrics take the arrays as they come)
+    ivecs = [list(v) for k in (2, 3) for v in itertools.product(INTS, repeat=k)]
+    items.append(('snorms', ('vec', ivecs, ps, (None,))))
+    # metrics
+    xps = _arrays(MXP1, 1, 2) + _arrays(MXP, 2, 2)
+    xs = _arrays(MX, 1, 2) + _arrays(MX if thorough else MX2, 2, 2)
+    for ch in _chunks(xs, 24):
+        items.append(('smetrics', ('rows', ch, xps, thorough)))
+    pts = [list(v) for v in itertools.product(MX, repeat=3)]
+    pxs = [list(v) for v in itertools.product(MXP + ([-T52] if thorough else []), repeat=3)]
+    for ch in _chunks(pts, 32):
+        items.append(('smetrics', ('points', ch, pxs, thorough)))
+    ipts = [list(v) for v in itertools.product(INTS, repeat=2)]
+    items.append(('smetrics', ('points', ipts, ipts, thorough)))
+    irows = [[list(a), list(b)] for a in itertools.product(INTS[:5], repeat=2) for b in itertools.product(INTS[:5], repeat=2)]
+    for ch in _chunks(irows, 160):
+        items.append(('smetrics', ('rows', ch, [[[0, 0], [0, 0]], [[0, 0]]], thorough)))
+    # normalize
+    wvs = [list(v) for k in (2, 3) for v in itertools.product(WN, repeat=k) if any(v)]
+    wvs += [list(v) for v in itertools.product(WN, repeat=4) if any(v)] if thorough else [v for v in _multisets(WN, 4, seed) if any(v)]
+    for ch in _chunks(wvs, 400):
+        items.append(('snormalize', ch))
+    return items
+
+
+def shard_tol(item):
+    n, cases, thorough = item
+    T = Tally()
+    clauses = tol_clause_list(thorough)
+    for xs, ws in cases:
+        run_case(T, xs, ws, clauses)
+    if cases:
+        T.sample({'family': 'tol', 'xs': cases[0][0], 'ws': cases[0][1], 'clauses_per_case': len(clauses)})
+    return T
+
+
+def tol_items(thorough, seed):
+    items = []
+    for n in (3, 2):
+        cases = [(xs, ws) for xs in sample_vectors(n) for ws in weight_vectors(n)]
+        for ch in _chunks(cases, 240):
+            items.append(('tol', (n, ch, thorough)))
+    cases = orbit_representatives(4, seed) if thorough else [(xs, None) for xs in sample_vectors(4)]
+    for ch in _chunks(cases, 240):
+        items.append(('tol', (4, ch, thorough)))
+    return items
+
+
 # ------------------------------------------------------------------ approx
 def shard_approx(_):
     from mystic.math.approx import almostEqual, approx_equal, tolerance
@@ -1215,7 +1750,8 @@ def shard_approx(_):
 def _dispatch(item):
     kind, payload = item
     return {'grid': shard_grid, 'cases': shard_cases, 'offset': shard_offset, 'offset_cases': shard_offset_cases, 'weights': shard_weights, 'norms': shard_norms,
-            'metrics': shard_metrics, 'approx': shard_approx}[kind](payload)
+            'metrics': shard_metrics, 'approx': shard_approx, 'tol': shard_tol, 'snorms': shard_snorms, 'smetrics': shard_smetrics,
+            'snormalize': shard_snormalize}[kind](payload)
 
 
 def _chunks(seq, size):
@@ -1271,6 +1807,17 @@ def run(ctx):
         for ch in _chunks(xs, 10):
             items.append(('metrics', (d, ch, xp_alpha)))
     items.append(('approx', None))
+    new_items = tol_items(ctx.thorough, ctx.seed) + scale_items(ctx.thorough, ctx.seed)
+    if os.environ.get('C18_ONLY_NEW'):       # development aid: run the tol / scale families alone (evidence is marked non-exhaustive)
+        items = []
+        ctx.cap('C18_ONLY_NEW is set: only the tol and scale families were run, the main grid was skipped')
+    # one shard of each new family first, so that the (first six) evidence samples show every family
+    head, seen = [], set()
+    for it in new_items:
+        k = (it[0], it[1][0] if isinstance(it[1], tuple) else None)
+        if k not in seen and k[1] in (3, 'mat', 'rows', None):
+            seen.add(k); head.append(it)
+    items = head[:4] + items[:1] + [it for it in new_items if it not in head[:4]] + items[1:]
     ctx.bounds = {
         'sample_alphabet': ALPHA, 'sample_lengths': [2, 3, 4], 'samples': 'all non-constant vectors',
         'length_4_cases': ('complete: 620 sample vectors x (None + 255 weight vectors)' if ctx.thorough else
@@ -1315,9 +1862,43 @@ def run(ctx):
                       'scale-then-shift in binary64 stay below 0.08 of the allowance on the unchanged tree (measured), while a raw-moment '
                       '(E[x^2]-E[x]^2) evaluation errs by ~eps*M**2 = 1e-4 / 0.5 absolute, 1e3..1e5 times the allowance' % (REL, KNOISE)),
     }
+    tcl = tol_clause_list(ctx.thorough)
+    ctx.bounds['tol_family'] = {
+        'functions': 'mean(x,w,tol); moment(x,w,order,tol) order 0..4; standard_moment(x,w,order,tol) order 1..4; '
+                     'impose_moment(m,x,w,order,tol,skew) order 2,3,4',
+        'tol': TOLS_M, 'impose_moment_targets': TOL_TARGETS, 'skew': '[None, the opposite of the default for that order]',
+        'cases': ('all non-constant sample vectors of length 2 and 3 over the sample alphabet x (None + every weight vector with positive sum); length 4: ' +
+                  ('one case per joint-permutation orbit' if ctx.thorough else 'unweighted, all 620 vectors')),
+        'clauses_per_case': len(tcl),
+        'mean_classes': 'every case is labelled mean=0 / mean_within_tol (0 < |weighted mean| <= tol) / mean_beyond_tol; histograms tol_defs, tol_moment',
+        'judged': 'a result whose exact magnitude is < tol must be exactly 0.0 (<= tol for mean, whose float evaluation is exact at a dyadic boundary); '
+                  'beyond tol it must equal the exact central moment about the TRUE weighted mean (same tolerance rule as the main grid); impose_moment must '
+                  'reach the target moment and keep the mean whenever the exact source moment is beyond tol',
+        'recorded_not_judged': 'order 0 with tol >= 1; standard_moment where "snap the moment" and "snap the ratio" disagree (either accepted), order 2 of it; '
+                               'a moment exactly at tol (0.0 or the value); impose_moment when the source moment is within / at tol (it "is zero": degenerate)'}
+    ctx.bounds['scale_families'] = {
+        'tiny': {'2**-600': 'p>=2: |v|**p underflows to 0', '3*2**-520': 'p=2: subnormal', '2**-350': 'p=3: subnormal, p=4: 0', '2**-260': 'p=4: subnormal'},
+        'huge': {'2**600': 'p>=2 overflows', '3*2**510': 'p=2: each term finite, the sum of two overflows', '2**400': 'p>=3 overflows', '2**300': 'p=4 overflows'},
+        'Lnorm': {'p': [_pj(q) for q in PS_SCALE] + ([6] if ctx.thorough else []), 'vector_alphabet': NORM_ALPHA,
+                  'vectors': 'all of length 1..3; length 4: ' + ('all' if ctx.thorough else 'one ordering per multiset (rotates with the seed)'),
+                  'matrices': {'2x2': {'alphabet': MAT_ALPHA, 'axis': [None, 0, 1]},
+                               '2x3 and 3x2': {'alphabet': MAT_ALPHA_WIDE, 'axis': 'all' if ctx.thorough else '2x3: None, 1; 3x2: 0', 'p': 'as vectors' if ctx.thorough else [2, 3, 4]}},
+                  'integer_typed': {'alphabet': INTS, 'lengths': [2, 3]}},
+        'metrics': {'calls': ['%s%s' % (n, '' if q is None else '(p=%s)' % q) for n, q in _metric_calls(ctx.thorough)],
+                    'x': {'alphabet_one_row': MX, 'alphabet_two_rows': MX if ctx.thorough else MX2, 'shapes': '(1,2), (2,2); 1-D points of dimension 3 over the one-row alphabet'},
+                    'xp': {'one_row_alphabet': MXP1, 'two_row_and_3d_alphabet': MXP + ([-T52] if ctx.thorough else [])},
+                    'modes': 'rows: A (pair=False,axis=0), B (pair=True,axis=1), E (xp=None); points: C (pair=True), D (dmin=2,axis=0)',
+                    'integer_typed': {'alphabet': INTS, 'forms': 'points of dimension 2 (all pairs); two-row x over the first five values against zero x\''}},
+        'normalize': {'weights_alphabet': WN, 'lengths': '2, 3 all; 4: ' + ('all' if ctx.thorough else 'one ordering per multiset'),
+                      'calls': [('normalize(w, "l%d")' % m) if h == 'lp' else '%s(mass=%r)' % (h, m) for h, m in NORMALIZE_HOWS]},
+        'oracle': 'ref/c18_exact.py: exact rational radicand, exact rational powers of the returned float; rules R1 (p-norm within 1e-12 relative; terms of the radicand '
+                  'below 2**-1022 may be evaluated anywhere between 0 and themselves), R2 (max-norm accepted only when the radicand of THAT vector / row / pair is >= '
+                  '2**1024*(1-2**-40), i.e. not a finite binary64 number), R3 (p in 0, 1, inf).  Also: numpy.geterr() is unchanged by the call',
+        'recorded_not_judged': 'normalize(w, "lP") when the radicand of w is in the underflow range (the allowance of R1 exceeds 1e-12 of it); verdict '
+                               '"pnorm_within_underflow_allowance" (e.g. Lnorm([2**-600]*2, 2) = 0.0) is accepted and histogrammed'}
     ctx.rule = ("one case = (sample vector, weight vector); every clause (entry point x parameter tuple) is run on every case. "
                 "distinct_nontrivial counts (sample, weight) cases on which at least one transform changed at least one entry, plus "
-                "every distinct Lnorm / metric / approx input; states counts distinct cases; traces counts clause executions; "
+                "every distinct Lnorm / metric / approx input (both the O(1) and the 'scale' families) and every normalize call that was judged; states counts distinct cases; traces counts clause executions; "
                 "histograms give per-clause outcomes including 'undefined:*' (operation not defined there, not judged) and 'identity'")
     ctx.assumptions = [
         "floating-point tolerance rule (see bounds.tolerance): every stored position may be off by 32 ulps of the largest magnitude handled; "
@@ -1332,6 +1913,12 @@ def run(ctx):
         "impose_collapse: the group of a connected set of pairs must end with its whole weight on one member; for 'simple' pair sets "
         "(no index both first and second, no shared second index) that member must be the first index, as the examples document",
         "optimizer-based impose_expectation / impose_expected_* / impose_reweighted_* are not shift/scale constructions and are outside this check",
+        "tol of mean / moment / standard_moment / impose_moment ('any mean <= tol is zero') is read as: a RESULT of magnitude <= tol is returned as 0.0; it never "
+        "changes the definition (the centre of a central moment is the true weighted mean for every tol).  Points the text leaves open are accepted either way and "
+        "labelled in the histograms (bounds.tol_family.recorded_not_judged)",
+        "norms and metrics on entries of any binary64 magnitude: rules R1-R3 of ref/c18_exact.py.  The library's fallback to the max norm is accepted for a vector "
+        "whose own radicand overflows and for nothing else; in particular not for the other rows / pairs of the same call, and not for integer-typed input whose "
+        "p-th powers leave the int64 range (the p-norm of such input is an ordinary float)",
     ]
     ctx.pmap(_dispatch, items)
 
@@ -1342,6 +1929,14 @@ def replay(case):
         return c_lnorm(case['arr'], case['p'], case['axis'])
     if name == 'metric':
         return c_metric(case['metric'], case['mode'], case['x'], case['xp'])
+    if name == 'Lnorm_scale':
+        return [str(r[3]) for r in c_lnorm_scale(case['arr'], case['p'], case['axis']) if r[0].startswith('BAD')]
+    if name == 'metric_scale':
+        p = case['p']
+        return [str(r[3]) for r in c_metric_scale(case['metric'], case['mode'], case['x'], case['xp'], _pv(p) if p is not None else None)
+                if r[0].startswith('BAD')]
+    if name == 'normalize_scale':
+        return [text for sub, text in c_normalize_scale(case['ws'], case['how'], case['mass'])[1]]
     if name == 'approx':
         T = shard_approx(None)
         return [v['detail'] for v in T.violations.values()
